@@ -764,6 +764,14 @@ class Inliner(object):
             return None
         if callee.fq in stack or callee is caller:
             return None
+        if any(isinstance(n, ast.Call) and isinstance(n.func, ast.Attribute)
+               and n.func.attr == 'symlink' and
+               isinstance(n.func.value, ast.Name) and n.func.value.id == 'os'
+               for n in ast.walk(callee.raw)):
+            # the atomic claim of a name (os.symlink fails when it exists)
+            # is a step the rules find by that role, whatever the routine
+            # around it is called: judged where it stands
+            return None
         if callee.module is not caller.module and not \
                 self._inherited_wrapper(caller, call, callee):
             return None     # only helpers of the same module
@@ -1422,9 +1430,28 @@ class Inliner(object):
                 for name in params:
                     if name not in bound and name in defaults:
                         bound[name] = defaults[name]
-                if set(bound) != set(params) or \
-                        not all(_simple_arg(a) for a in bound.values()):
+                if set(bound) != set(params):
                     return node
+                for pname, arg in bound.items():
+                    if _simple_arg(arg):
+                        continue
+                    # any argument may stand for a parameter that E reads
+                    # exactly once and before anything else (E is a chain
+                    # of attribute / item / method steps on it): it is
+                    # evaluated once, at the same point
+                    uses = [n for n in ast.walk(expr)
+                            if isinstance(n, ast.Name) and n.id == pname]
+                    cur = expr
+                    while isinstance(cur, (ast.Attribute, ast.Subscript,
+                                           ast.Call)):
+                        cur = cur.func if isinstance(cur, ast.Call) \
+                            else cur.value
+                    if len(uses) != 1 or cur is not uses[0] or any(
+                            isinstance(n, (ast.Lambda, ast.GeneratorExp,
+                                           ast.ListComp, ast.SetComp,
+                                           ast.DictComp))
+                            for n in ast.walk(arg)):
+                        return node
                 # free names of E other than parameters must mean the same
                 # thing at the call site: module-level names only
                 free = set(n.id for n in ast.walk(expr)
